@@ -74,13 +74,16 @@ UNIT = dict(
   ],
   runs=[dict(id='find_index_%s_k%d' % (v, K), entry='h_find_index_' + v, cls='shape-complete', tiers=QT if K <= 8 else TT,
              defs={'KMAX': K, 'KLO': K}, unwind=max(K, 4) + 1, note='k = %d' % K) for K in range(1, 17) for v in 'EN'] + [
-    dict(id='%s_k%d' % (op, K), entry='h_' + op, cls='shape-complete', tiers=QT if K <= 3 else TT, defs={'KMAX': K, 'KLO': K}, unwind=max(K, 4) + 1,
-         unwindset=['kfq_push.1:3', 'kfq_do_pop.0:5', 'kfq_dtor.0:5'], flags=['--object-bits', '10'], timeout=1500, note='k = %d, 1..3 linked segments; all callees real text' % K)
+    dict(id='%s_k%d' % (op, K), entry='h_' + op, cls='shape-complete', tiers=QT if K <= 3 else TT, defs={'KMAX': K, 'KLO': K, 'XV_STUB': 1}, unwind=max(K, 4) + 1,
+         unwindset=['kfq_push.1:3', 'kfq_do_pop.0:5'], flags=['--object-bits', '10'], timeout=1500, note='k = %d, 1..3 linked segments; callees = SEQ contract stubs' % K)
     for op in ('push', 'pop') for K in (1, 2, 3, 4)] + [
+    dict(id='%s_k%d' % (op, K), entry='h_' + op, cls='shape-complete', tiers=QT if K <= 3 else TT, defs={'KMAX': K, 'KLO': K}, unwind=max(K, 4) + 1,
+         flags=['--object-bits', '10'], timeout=1500, note='k = %d, 1..3 linked segments; real text' % K)
+    for op in ('committed_seq', 'advance_tail_seq', 'advance_head_seq') for K in (1, 2, 3, 4)] + [
     dict(id='push_null', entry='h_push_null', cls='shape-complete', unwind=5),
     dict(id='ctor', entry='h_ctor', cls='shape-complete', unwind=5),
     dict(id='delete_remaining', entry='h_delete_remaining', cls='shape-complete', unwind=5, solver=['--sat-solver', 'cadical']),
-    dict(id='dtor', entry='h_dtor', cls='shape-complete', unwind=5, unwindset=['kfq_dtor.0:5'], solver=['--sat-solver', 'cadical']),
+    dict(id='dtor', entry='h_dtor', cls='shape-complete', defs={'XV_STUB': 1}, unwind=5, unwindset=['kfq_dtor.0:5'], solver=['--sat-solver', 'cadical'], note='delete_remaining_items = contract stub'),
   ],
   obligations={
     'kfq.find_index.covers': dict(deciding=True, text='for every random start the probes of find_index are pairwise distinct slots 0..k-1 of the segment, and all k are probed before false is returned'),
@@ -90,6 +93,9 @@ UNIT = dict(
     'kfq.pop.oldest_segment': dict(deciding=True, text='[SEQ] a successful try_pop empties exactly one slot (null, mark+1), returns its value once, and the slot lies in the oldest non-empty segment'),
     'kfq.pop.k_oldest': dict(deciding=True, text='[SEQ] fewer than k stored values are older than the value try_pop returns'),
     'kfq.inv.preserved': dict(deciding=True, text='[SEQ] constructor state and every operation keep the representation invariant (chain, head before tail, tail last or last-but-one, empty outside [head,tail], full strictly inside, deleted only at/behind head, ages increase segment-wise)'),
+    'kfq.committed.seq': dict(deciding=False, text='[SEQ] contract of committed used by push: slot holds the value, segment not marked deleted => true, head_ mark +1 iff the segment is the head segment, nothing else changes'),
+    'kfq.advance_tail.seq': dict(deciding=True, text='[SEQ] advance_tail moves tail_ by exactly one segment: to the existing successor, or to one freshly allocated empty segment linked behind the old tail; nothing else changes'),
+    'kfq.advance_head.seq': dict(deciding=True, text='[SEQ] advance_head on an empty head segment: no successor => nothing changes; otherwise tail_ is moved on first if it pointed to the head segment, the segment is marked deleted, head_ moves by one segment, the segment is retired once, the guard is reset'),
     'kfq.retire.once_empty': dict(deciding=True, text='a segment is retired exactly once, after it was marked deleted and unlinked from head_, and it holds no value; release_segment only gets live, empty segments'),
     'kfq.advance_head.deleted_first': dict(deciding=True, text='whenever head_ leaves a segment that segment has already been marked deleted'),
     'kfq.advance.one_segment': dict(deciding=True, text='head_ and tail_ are only changed by CAS from the word read to the successor of that segment (head_ also: same segment, mark+1)'),
@@ -99,6 +105,6 @@ UNIT = dict(
     'kfq.dtor.segments_released': dict(deciding=True, text='the destructor releases every segment reachable from head_ exactly once, after emptying it'),
   },
   canaries=['find_index.found', 'find_index.found_last', 'find_index.none', 'push.allocated', 'push.helped_tail', 'push.bumped_head', 'push.plain', 'push.null', 'pop.empty', 'pop.not_the_oldest',
-            'pop.advanced_head', 'pop.advanced_tail', 'pop.allocated', 'ctor.reached', 'dri.tracked', 'dri.not_stored', 'dtor.tracked', 'dtor.not_stored', 'dtor.three_segments'],
+            'pop.advanced_head', 'pop.advanced_tail', 'pop.allocated', 'committed_seq.at_head', 'committed_seq.behind_tail', 'advance_tail_seq.helped', 'advance_tail_seq.allocated', 'advance_head_seq.no_successor', 'advance_head_seq.moved_tail_too', 'advance_head_seq.plain', 'ctor.reached', 'dri.tracked', 'dri.not_stored', 'dtor.tracked', 'dtor.not_stored', 'dtor.three_segments'],
   loop_obligation={'PUSH': 'kfq.push.validate', 'POP': 'kfq.pop.validate'},
 )
